@@ -259,8 +259,9 @@ Section Step.
     | ERaise w t =>
         let x := ws s w in
         match w_pc x with
-        | PRunning t' | PCleared t' =>                  (* PCleared: resolving the arguments raised *)
-            if Pos.eqb t t' then
+        | PRunning t' | PCleared t' =>                  (* PCleared: resolving the arguments raised
+                                                           (run() has asserted can_run() before) *)
+            if Pos.eqb t t' && forallb (stored s) (c_deps C t) then
               match c_sem C t (results s) with
               | Raise => Some (set_w s w (set_failed (handle (act n x (PRaised t)) t)))
               | _ => None
